@@ -1,10 +1,11 @@
 #!/bin/sh
 # usage: run_all.sh [quick|thorough] [ids...] — run every claimed check, print one summary line each (evidence rewritten)
-cd /verif
+cd "$(dirname "$0")/.."
 TIER=${1:-quick}; shift
-IDS="${@:-$(python3 -c "import json;print(' '.join(c['property_id'] for c in json.load(open('/verif/MANIFEST.json'))['checks']))")}"
+IDS="${@:-$(python3 -c "import json;print(' '.join(c['property_id'] for c in json.load(open('MANIFEST.json'))['checks']))")}"
 for id in $IDS; do
   s=$(date +%s); out=$(./check $id $TIER 2>&1); rc=$?; e=$(date +%s)
   echo "rc=$rc t=$((e-s))s $(echo "$out" | grep "^$id $TIER:" | tail -1)"
+  mkdir -p evidence_$TIER; cp evidence/$id.json evidence_$TIER/$id.json 2>/dev/null
   echo "$out" | grep "^VIOLATION\|^KNOWN-FINDING\|^HARNESS-ERROR" | head -5
 done
